@@ -48,3 +48,12 @@ Fixpoint select_manifest (entries : list (node * option plat)) (want : plat) : o
   | [] => None
   | (n, p) :: r => if plat_match p want then Some n else select_manifest r want
   end.
+
+(* Source reads of Copy's prologue that do NOT end up in the proxy cache (so copyGraph reads the
+   content again): resolveRoot through a ReferenceFetcher when the root is not a manifest (the
+   reader is closed unread and the cache push fails), and WithTargetPlatform on an image-manifest
+   root (SelectManifest reads the manifest and its config blob with StopCaching set). *)
+Definition prologue_reads (reffetch_uncached_root : bool) (root0 : node)
+           (plat_on_image : option (node * node)) : list node :=
+  (if reffetch_uncached_root then [root0] else []) ++
+  match plat_on_image with Some (m, cfgblob) => [m; cfgblob] | None => [] end.
